@@ -630,6 +630,8 @@ class QueryObjectDescriptor(CanBehaveLikeAVariable[T], ABC):
             yield bindings
             return
         var, remaining_vars = selected_vars[0], selected_vars[1:]
+        # an expression object may also be used by another query, it is this description that evaluates it now
+        var._eval_parent_ = self
         for var_val in var._evaluate__(copy(bindings)):
             new_bindings = copy(var_val)
             new_bindings.update(bindings)
@@ -940,6 +942,7 @@ class Variable(CanBehaveLikeAVariable[T]):
             yield kwargs
             return
         (name, child_var), remaining = child_vars[0], child_vars[1:]
+        child_var._eval_parent_ = self
         for child_val in child_var._evaluate__(copy(bindings)):
             new_bindings = copy(child_val)
             new_bindings.update(bindings)
@@ -1159,7 +1162,10 @@ class DomainMapping(CanBehaveLikeAVariable[T], ABC):
         parent = self._parent_
         if isinstance(parent, ForAll):
             return parent.condition is self
-        return isinstance(parent, (LogicalOperator, QueryObjectDescriptor, ResultQuantifier))
+        if isinstance(parent, QueryObjectDescriptor):
+            # the condition of the description, not one of its selected expressions
+            return parent._child_ is self
+        return isinstance(parent, (LogicalOperator, ResultQuantifier))
 
     @abstractmethod
     def _apply_mapping_(self, value: HashedValue) -> Iterable[HashedValue]:
